@@ -108,8 +108,8 @@ CHECKS = {
         note=COMMON_NOTE + "Pygments' RegexLexer engine, Lexer.get_tokens and Python's re module are MODELLED by hand, not verified: the tie is the per-run differential comparison (token lists on generated texts incl. exhaustive enumeration over the delimiter alphabet, every rule's compiled regex object vs the Lean matcher at random positions) plus table lemmas that fail to build when a regex, flag, state action or lexer option outside the modelled set appears. Unicode \\w/\\d membership tables are read from the running interpreter's re. words(): regex_opt's alternation order is argued irrelevant (keywords are ASCII word-character strings followed by \\b), not proved. Lone surrogates and bytes input are outside the model (surrogates are exercised on the real lexer only)."),
     "C10": dict(
         level="other", design="4/C10",
-        technique="(A) Lean 4 theorems about a hand-written model of the compiler's rejection sites (lean/ESV/Static/Wf.lean: SsbScript dispatch, import recursion with "
-                  "recursion_check, macro cycle check, macros-only check, routine id check, add phase and collect phase of every compile handler in the real collect "
+        technique="(A) Lean 4 theorems about a hand-written model of the compiler's rejection sites (lean/ESV/Static/Wf.lean: SsbScript dispatch, resolution of every import statement on its own "
+                  "(direct path / first lookup path that has the file), import recursion with recursion_check, macro cycle check, macros-only check, routine id check, add phase and collect phase of every compile handler in the real collect "
                   "order, fixed-point routine target, OpsLabelJumpToRemover) on a static AST produced by the harness from the surface AST, tied to /repo on every run by "
                   "exception-CLASS equality on generated statically invalid / valid programs and import worlds; (B) exploration of compile() on generated strings in "
                   "worker processes (time and memory limits) with delta-debugged failing inputs; compile CLI run in a subprocess",
@@ -118,8 +118,9 @@ CHECKS = {
              "outside a loop, a jump or call to a label no routine places (labels placed only in macro bodies do not count; jumps inside macro expansions are private), "
              "a switch ending in a case without statements, two defaults (switch or message switch), a message-switch case holding statements, a label in a with-block, "
              "`not` on a bit test of a variable other than the performance progress list (if/elseif/while/for header), a call of an unknown macro, a call leaving a "
-             "macro variable without value (ValueError), recursion among the file's macros (cycle check proved complete: macroCycle_of_closed), a missing import, an "
-             "import cycle reachable from the compiled file, routines in an imported file, an imported SsbScript file, or any failing imported file is rejected by the "
+             "macro variable without value (ValueError), recursion among the file's macros (cycle check proved complete: macroCycle_of_closed), a missing import statement at any position of an import list "
+             "(direct: the path is no file; lookup style: no lookup path has the file, whatever was found for the statements before it — resolve_lookup_none, "
+             "imports_resolved_independently, rejects_missing_import_at), an import cycle reachable from the compiled file, routines in an imported file, an imported SsbScript file, or any failing imported file is rejected by the "
              "model with a documented class (rejects_* theorems, one per shape, plus core_rejects_* for Static.check on the core AST; also a first routine id other than "
              "0 and a decimal routine target). error_kinds_documented / world_error_kinds_documented: every error of the model, with or without imports, is "
              "SsbCompilerError or ValueError. The model follows the repaired /repo: the two clauses that were false on the pinned tree (IndexError from strip_last_label "
@@ -133,8 +134,8 @@ CHECKS = {
              "searched, not proved. The model covers the rejection sites, not the back end: the order check on op offsets (a routine id written twice or out of order: "
              "SsbCompilerError) and LabelFinalizer are outside it; generated programs write every id once, ascending. The compile order of the macros of one file (macro "
              "resolution order, defect A4 of C05) is not modelled; generated macro call graphs are forests and a too-few-arguments call is never combined with a defect in "
-             "another macro body. Import paths are resolved by the harness (posix normalisation, lookup directories, directories count as not found); realpath/symlinks "
-             "are not modelled. Import recursion uses fuel = number of files + 1; running out of fuel is reported as the SsbCompilerError the implementation raises one "
+             "another macro body. The harness does the path arithmetic of imports (join with the importing file's directory and each lookup path, posix normalisation); "
+             "which candidate is a file, which lookup path wins and whether a statement is missing is decided in the Lean model; realpath/symlinks are not modelled. Import recursion uses fuel = number of files + 1; running out of fuel is reported as the SsbCompilerError the implementation raises one "
              "level earlier (pigeonhole argument, not proved). Workers run compile() with Python's default recursion limit (1000) and 1500 MB address space."),
     "C15": dict(
         level="proof", design="4/C15",
